@@ -1,4 +1,4 @@
-(* C05 - the table builder on a proved family of fields: for EVERY prime power q <= 32, every modulus f (any polynomial
+(* C05 - the table builder on a proved family of fields: for EVERY prime power q <= 16, every modulus f (any polynomial
    of degree <= k given p-adically, monic or not) and every generator g that the verified checkers accept as irreducible /
    primitive (fg_ok), the tables computed by the model's builder mk_tables pass tables_ok - complete sweep inside the kernel. *)
 From Coq Require Import ZArith Lia List Bool.
@@ -7,7 +7,7 @@ Import ListNotations.
 Local Open Scope Z_scope.
 
 Definition sweep_bounds : list (Z * Z) :=
-  [(2,1);(2,2);(2,3);(2,4);(2,5);(3,1);(3,2);(3,3);(5,1);(5,2);(7,1);(11,1);(13,1);(17,1);(19,1);(23,1);(29,1);(31,1)].
+  [(2,1);(2,2);(2,3);(2,4);(3,1);(3,2);(5,1);(7,1);(11,1);(13,1)].
 Definition sweep_one (pk : Z * Z) : bool :=
   let (p, k) := pk in
   forallb (fun f => forallb (fun g => implb (fg_ok p k f g) (tables_ok p k f g (mk_tables p k f g))) (range (p ^ k)))
